@@ -2,13 +2,191 @@
 C01 (hand-written code) — termination, iteration bounds, in-range indices / slices and absence of arithmetic
 traps for the models of Model/HandAat.lean ⇄ read-fonts/src/tables/aat.rs state tables (StateTable / ExtendedStateTable class / entry), kern.rs, ankr.rs / feat.rs / ltag.rs / trak.rs accessors, ift.rs patch-map header helpers.
 Tied to the real functions by harness group `aats.model` (`ha.*` driver commands).
+
+Hypotheses used throughout: `hb` — the table data is a byte string; `hl` — its length is a `usize`
+(`MAXU` = 2^64 − 1); `…Read d = true / some n` — the generated `read` of the table succeeded (the
+functions are methods of the successfully read table).  A result `R.trap` stands for a panic of the
+overflow-checked profile (`unwrap` on `None`, index / slice out of range, unchecked `+` `*` overflow,
+division by zero).
 -/
 import FontVerif.Model.HandAat
 import FontVerif.Lemmas.ReadIter
+import FontVerif.Lemmas.HandAat
 set_option linter.unusedVariables false
 set_option linter.unusedSimpArgs false
 namespace FontVerif.C01HandAat
 open FontVerif FontVerif.HandRead FontVerif.HandAat
 open FontVerif.ReadIter (Out run items trapped)
+
+/-! ## AAT lookups at byte level -/
+
+/-- **the index both arms of the binary search produce is in range, whatever the keys**:
+`match segments.binary_search_by(..) { Ok(ix) => ix, Err(ix) => ix.saturating_sub(1) }` on a non-empty
+slice of ANY (unsorted, duplicated, hostile) keys is a valid index — `core::slice::binary_search_by`
+(transcribed in Model/Layout.lean) never leaves `0..len`. -/
+theorem bsearch_index_in_range (n : Nat) (cmpAt : Nat → Ordering) (hn : 0 < n) : bsIx n cmpAt < n :=
+  bsIx_lt cmpAt hn
+
+/-- a successful binary search returns an in-range index of an element that compares `Equal` -/
+theorem bsearch_ok_in_range (n : Nat) (cmpAt : Nat → Ordering) (i : Nat)
+    (h : Layout.binarySearchBy n cmpAt = .ok i) : i < n ∧ cmpAt i = .eq := bs_ok_lt h
+
+/-- **`Lookup::read` + `Lookup::value::<T>` (= `TypedLookup`) never panic, and a value they return was
+read from inside the table**: for every byte string, every lookup format (0, 2, 4, 6, 8, 10 — anything
+else is `InvalidFormat`), `T` of 2 or 4 bytes and every glyph id: the result is `Ok` or an
+`Err(ReadError)`; `Ok(v)` is a big-endian number of some `w` bytes at some `p` with
+`p + w ≤ data.len()` (truncated to 16 bits by `T::from_u32` for a format 10 table read as `u16`).
+The segment / entry index produced by the binary searches of formats 2 / 4 / 6 is in range for
+unsorted keys, too; `&entries[ix]`, `&data[..n * size]`, `offset + (index - first) * size` and
+`ix * unit_size` cannot trap. -/
+theorem lookupValue_safe (d : List Nat) (size g : Nat) (hl : d.length ≤ MAXU) (hb : ∀ b ∈ d, b < 256)
+    (hs : size = 2 ∨ size = 4) (hg : g < 65536) :
+    lookupValue d size g ≠ .trap ∧ ∀ v, lookupValue d size g = .ok v → ReadsInside d v :=
+  lookupValue_facts d size g hl hb hs hg
+
+/-! ## legacy `StateTable` -/
+
+/-- **`StateTable::class` is total and only indexes inside the class array**: for every glyph id the
+result is `Ok` / `Err`, never a panic (`glyph_id - first_glyph` is `checked_sub`); `Ok(c)` for a glyph
+other than `0xFFFF` means `first_glyph ≤ g`, `g - first_glyph < n_glyphs`, and `c` is the byte at
+`class_table_offset + 4 + (g - first_glyph)`, an index below `data.len()`. -/
+theorem stClass_total (d : List Nat) (g : Nat) (hr : stRead d = true) (hl : d.length ≤ MAXU) :
+    stClass d g ≠ .trap ∧ ∀ c, stClass d g = .ok c →
+      (g = 0xFFFF ∧ c = 2) ∨
+      (beAt d (beAt d 2 2) 2 ≤ g ∧ g - beAt d (beAt d 2 2) 2 < beAt d (beAt d 2 2 + 2) 2 ∧
+        beAt d 2 2 + 4 + (g - beAt d (beAt d 2 2) 2) < d.length ∧
+        d[beAt d 2 2 + 4 + (g - beAt d (beAt d 2 2) 2)]? = some c) :=
+  stClass_facts d g hr hl
+
+/-- **`StateTable::entry` never traps and `Ok` means every array access was in range**: for every
+`state: u16`, `class: u8`: `state * n_classes + class` (the `+` is unchecked), `entry_ix * 4`, the
+`i32` subtraction / division of the `new_state` conversion cannot overflow or divide by zero
+(`n_classes == 0` is answered with `MalformedData` first); when the result is `Ok((new_state, flags))`
+the state-array byte was read at `state_array_offset + state * n_classes + class' < data.len()`
+(`class'` = the class clamped to `OUT_OF_BOUNDS`), the 4-byte entry lies at
+`entry_table_offset + entry_ix * 4 .. + 4 ≤ data.len()`, and `new_state ≤ 65535`. -/
+theorem stEntry_safe (d : List Nat) (state cls : Nat) (hr : stRead d = true) (hl : d.length ≤ MAXU)
+    (hb : ∀ b ∈ d, b < 256) (hs : state < 65536) (hc : cls < 256) :
+    stEntry d state cls ≠ .trap ∧ ∀ ns fl, stEntry d state cls = .ok (ns, fl) →
+      ns ≤ 65535 ∧ beAt d 0 2 ≠ 0 ∧
+      ∃ eix, d[beAt d 4 2 + (state * beAt d 0 2 + (if cls ≥ beAt d 0 2 then 1 else cls))]? = some eix ∧
+        beAt d 6 2 + eix * 4 + 4 ≤ d.length ∧ fl = beAt d (beAt d 6 2 + eix * 4 + 2) 2 :=
+  stEntry_facts d state cls hr hl hb hs hc
+
+/-- `StateEntry::<T>::read` succeeds only when the 4 header bytes and the whole payload fit, and
+returns exactly those bytes (no alignment requirement: the payload is copied, /repo 4e41891) -/
+theorem stateEntryRead_in_bounds (e : List Nat) (psize ns fl pl : Nat)
+    (h : stateEntryRead e psize = .ok (ns, fl, pl)) :
+    4 + psize ≤ e.length ∧ ns = beAt e 0 2 ∧ fl = beAt e 2 2 ∧ pl = beAt e 4 psize :=
+  stateEntryRead_ok h
+
+/-! ## `ExtendedStateTable` -/
+
+/-- **`ExtendedStateTable::class` is total**: `Ok` / `Err` for every glyph id, and an `Ok` class other
+than the `DELETED_GLYPH` answer for `0xFFFF` was read from inside the table (through the class lookup
+table of any format). -/
+theorem stxClass_total (d : List Nat) (g : Nat) (hr : stxRead d = true) (hl : d.length ≤ MAXU)
+    (hb : ∀ b ∈ d, b < 256) (hg : g < 65536) :
+    stxClass d g ≠ .trap ∧ ∀ c, stxClass d g = .ok c → (g = 0xFFFF ∧ c = 2) ∨ ReadsInside d c :=
+  stxClass_facts d g hr hl hb hg
+
+/-- **`ExtendedStateTable::<T>::entry` never traps and `Ok` means every access was in range**: the
+unchecked `state as usize * n_classes + class` and `entry_ix * size_of::<StateEntry<T>>()` stay below
+`usize::MAX` on 64-bit targets (`state`, `class`, `entry_ix` are `u16`, `n_classes` is `u32`, payload
+types of at most 64 KiB); `Ok((new_state, flags, payload))` means the 16-bit state-array word lies at
+`state_array_offset + 2·(state · n_classes + class') .. + 2 ≤ data.len()` and the entry — header and
+payload — at `entry_table_offset + entry_ix · (4 + psize) .. + 4 + psize ≤ data.len()`; the three
+results are exactly those bytes. -/
+theorem stxEntry_safe (d : List Nat) (psize state cls : Nat) (hr : stxRead d = true) (hl : d.length ≤ MAXU)
+    (hb : ∀ b ∈ d, b < 256) (hp : psize ≤ 65536) (hs : state < 65536) (hc : cls < 65536) :
+    stxEntry d psize state cls ≠ .trap ∧ ∀ ns fl pl, stxEntry d psize state cls = .ok (ns, fl, pl) →
+      ∃ eix, beAt d 8 4 + 2 * (state * beAt d 0 4 + (if cls ≥ beAt d 0 4 then 1 else cls)) + 2 ≤ d.length ∧
+        eix = beAt d (beAt d 8 4 + 2 * (state * beAt d 0 4 + (if cls ≥ beAt d 0 4 then 1 else cls))) 2 ∧
+        beAt d 12 4 + eix * (4 + psize) + 4 + psize ≤ d.length ∧
+        ns = beAt d (beAt d 12 4 + eix * (4 + psize)) 2 ∧
+        fl = beAt d (beAt d 12 4 + eix * (4 + psize) + 2) 2 ∧
+        pl = beAt d (beAt d 12 4 + eix * (4 + psize) + 4) psize :=
+  stxEntry_facts d psize state cls hr hl hb hp hs hc
+
+/-! ## ankr / feat / ltag -/
+
+/-- **`Ankr::anchor_points` never panics and the slice it returns lies inside the table**: for every
+`GlyphId` (u32) the result is `Ok` / `Err`; `Ok` = `n` points starting at byte `p`, with
+`p + 4·n ≤ data.len()`, `n` being the `num_points` word right in front of them. -/
+theorem ankrPoints_safe (d : List Nat) (gid : Nat) (hr : ankrRead d = true) (hl : d.length ≤ MAXU)
+    (hb : ∀ b ∈ d, b < 256) :
+    ankrPoints d gid ≠ .trap ∧ ∀ p n, ankrPoints d gid = .ok (p, n) →
+      gid ≤ 0xFFFF ∧ 4 ≤ p ∧ p + 4 * n ≤ d.length ∧ n = beAt d (p - 4) 4 :=
+  ankrPoints_facts d gid hr hl hb
+
+/-- **`Feat::find` only returns a record of the table with the requested feature code** — also for
+unsorted / duplicated records: `Some(name)` is record `ix < feature_name_count`, lying inside the
+data, whose `feature` field equals the argument. -/
+theorem featFind_sound (d : List Nat) (n feature ix : Nat) (hr : featRead d = some n)
+    (h : featFind d n feature = some ix) :
+    ix < n ∧ 12 + (ix + 1) * 12 ≤ d.length ∧ beAt d (12 + ix * 12) 2 = feature :=
+  featFind_facts d n feature ix hr h
+
+/-- `FeatureName::default_setting_index` is a byte (the flag helpers are plain bit tests) -/
+theorem featDefaultIndex_lt (flags : Nat) : featDefaultIndex flags < 256 := by
+  unfold featDefaultIndex; split <;> omega
+
+/-- **`Ltag::tag_indices` yields at most one item per range record, each a valid UTF-8 string inside
+the table, and never traps** (`start + length` are two `u16`s): the iteration is bounded by
+`num_tags ≤ (data.len() − 12) / 4`; every yielded `(index, start, length)` has `index < num_tags` and
+`start + length ≤ data.len()`. -/
+theorem ltagTags_bounded (d : List Nat) (n : Nat) (hr : ltagRead d = some n) (hl : d.length ≤ MAXU)
+    (hb : ∀ b ∈ d, b < 256) :
+    ∃ xs, ltagTags d n = .ok xs ∧ xs.length ≤ n ∧ 12 + n * 4 ≤ d.length ∧
+      ∀ t ∈ xs, t.1 < n ∧ t.2.1 + t.2.2 ≤ d.length ∧ utf8Valid ((d.drop t.2.1).take t.2.2) = true :=
+  ltagTags_facts d n hr hl hb
+
+/-- `Ltag::index_for_tag` is total (`Some` index below `num_tags`, or `None`) -/
+theorem ltagIndexFor_total (d : List Nat) (n : Nat) (tag : List Nat) (hr : ltagRead d = some n)
+    (hl : d.length ≤ MAXU) (hb : ∀ b ∈ d, b < 256) :
+    ∃ o, ltagIndexFor d n tag = .ok o ∧ ∀ i, o = some i → i < n := by
+  obtain ⟨xs, h1, _, _, h4⟩ := ltagTags_facts d n hr hl hb
+  unfold ltagIndexFor
+  simp only [h1]
+  refine ⟨_, rfl, fun i hi => ?_⟩
+  cases hf : xs.find? (fun t => (d.drop t.2.1).take t.2.2 == tag) with
+  | none => simp [hf] at hi
+  | some t =>
+    simp only [hf, Option.map_some, Option.some.injEq] at hi
+    subst hi
+    exact (h4 t (List.mem_of_find?_eq_some hf)).1
+
+/-! ## non-vacuity -/
+
+/-- the example table of the Apple `kern` chapter (7 classes, class table for glyphs 3..6):
+glyph 5 has class 3; entry (state 2, class 1) is `(2, 0x8114)` -/
+def exState : List Nat :=
+  [0,7, 0,10, 0,18, 0,40, 0,64,  0,3, 0,4, 1,2,3,4,
+   2,0,0,2,1,0,0, 2,0,0,2,1,0,0, 2,3,3,2,3,4,5, 0,
+   0,18,0x81,0x12, 0,32,0x81,0x12, 0,18,0,0, 0,32,0x81,0x14, 0,18,0x81,0x16]
+
+example : stRead exState = true ∧ stClass exState 5 = .ok 3 ∧ stClass exState 7 = .err .oob ∧
+    stClass exState 0xFFFF = .ok 2 ∧ stEntry exState 2 1 = .ok (2, 0x8114) ∧
+    stEntry exState 3 0 = .ok (0, 0x8112) ∧ stEntry exState 9 0 = .err .oob := by decide +kernel
+
+/-- format 6 lookup with UNSORTED keys: the search still ends inside the table -/
+def exLookup6 : List Nat := [0,6, 0,4, 0,3, 0,0, 0,0, 0,0,  0,9, 0,1,  0,2, 0,7,  0,5, 0,3]
+example : lookupValue exLookup6 2 2 = .ok 7 := by decide +kernel
+example : lookupValue exLookup6 2 5 = .ok 3 := by decide +kernel
+/-- key 9 is present (first record) but not found: the records are not sorted -/
+example : lookupValue exLookup6 2 9 = .err .oob := by decide +kernel
+
+/-- an extended table: n_classes 1, state array at 16, entries (2-byte payload) at 18 -/
+example : stxEntry [0,0,0,1, 0,0,0,0, 0,0,0,16, 0,0,0,18, 0,0, 0,1,0,2,0,3] 2 0 0 = .ok (1, 2, 3) ∧
+    stxEntry [0,0,0,1, 0,0,0,0, 0,0,0,16, 0,0,0,18, 0,0, 0,1,0,2,0,3] 2 1 0 = .err .oob ∧
+    stxClass [0,0,0,1, 0,0,0,0, 0,0,0,16, 0,0,0,18, 0,0, 0,1,0,2,0,3] 7 = .err .null := by decide +kernel
+
+/-- ltag with three tags, the middle one not UTF-8 (`C3` alone) -/
+example : ltagRead [0,0,0,1, 0,0,0,0, 0,0,0,3, 0,24,0,2, 0,26,0,1, 0,27,0,2, 101,110, 0xC3, 115,114] = some 3 ∧
+    ltagTags [0,0,0,1, 0,0,0,0, 0,0,0,3, 0,24,0,2, 0,26,0,1, 0,27,0,2, 101,110, 0xC3, 115,114] 3 =
+      .ok [(0, 24, 2), (2, 27, 2)] := by decide +kernel
+
+example : utf8Valid [0xE2, 0x82, 0xAC] = true ∧ utf8Valid [0xED, 0xA0, 0x80] = false ∧
+    utf8Valid [0xC0, 0x80] = false ∧ utf8Valid [0xF4, 0x90, 0x80, 0x80] = false := by decide +kernel
 
 end FontVerif.C01HandAat
